@@ -543,10 +543,49 @@ func judgeObservation(w *world, p proxyT, v *verdict, o *proxyObs) (fs []finding
 				continue
 			}
 			insts := w.instances(c.Host)
+			allowed := setOf(hv.Allowed)
+			// the instance the cluster was built from (endpoint address, else unique port); when it is
+			// not an allowed one that is already reported above and the rule lookup is not judged
+			var used []*svcT
+			for _, a := range o.EDS[c.Name] {
+				for _, s := range insts {
+					if s.Endpoint == a {
+						used = append(used, s)
+					}
+				}
+			}
+			if len(used) == 0 {
+				var owners []*svcT
+				for _, s := range insts {
+					for _, sp := range s.Ports {
+						if sp.Number == c.Port {
+							owners = append(owners, s)
+						}
+					}
+				}
+				if len(owners) == 1 {
+					used = owners
+				}
+			}
+			bad := false
+			for _, s := range used {
+				if !allowed[s.ID] {
+					bad = true
+				}
+			}
+			if bad {
+				continue
+			}
 			okMarkers := map[int]bool{}
-			for _, s := range insts {
-				if setOf(hv.Allowed)[s.ID] {
+			if len(used) > 0 {
+				for _, s := range used {
 					okMarkers[w.drFor(p.NS, s)] = true
+				}
+			} else {
+				for _, s := range insts {
+					if allowed[s.ID] {
+						okMarkers[w.drFor(p.NS, s)] = true
+					}
 				}
 			}
 			got := 0
